@@ -88,11 +88,17 @@ theorem old_escape_witness :
     showQ SQuirks.old [0xE000, 97] = [.esc 0xE000 false, .ch 97] ∧
     readQ (showQ SQuirks.old [0xE000, 97]) = [0xE000A] := by decide
 
-/-- the reader as it is (`readerIgnoresEscapes`): a string without `"` is read (undecoded,
-so that printing it again gives the same text) … -/
-theorem asis_reader_partial (s : List Nat) (h : 34 ∉ s) :
+/-- the reader as it is since 60db3d6 accepts everything `Display` writes -/
+theorem asis_reader_accepts (s : List Nat) :
     readRaw SQuirks.asis (showQ SQuirks.asis s) = some (showQ SQuirks.asis s) := by
-  have hmem : Tok.bsq ∉ showQ SQuirks.asis s := by
+  have h : SQuirks.asis.readerIgnoresEscapes = false := rfl
+  simp [readRaw, h]
+
+/-- the reader before 60db3d6 (`readerIgnoresEscapes`): a string without `"` is read (undecoded,
+so that printing it again gives the same text) … -/
+theorem r1_reader_partial (s : List Nat) (h : 34 ∉ s) :
+    readRaw SQuirks.r1 (showQ SQuirks.r1 s) = some (showQ SQuirks.r1 s) := by
+  have hmem : Tok.bsq ∉ showQ SQuirks.r1 s := by
     induction s with
     | nil => simp [showQ]
     | cons x rest ih =>
@@ -101,15 +107,15 @@ theorem asis_reader_partial (s : List Nat) (h : 34 ∉ s) :
       by_cases hp : isPrivateUse x = true
       · simp [showQ, hx, hp, hr]
       · simp [showQ, hx, hp, hr]
-  have h2 : SQuirks.asis.readerIgnoresEscapes = true := rfl
+  have h2 : SQuirks.r1.readerIgnoresEscapes = true := rfl
   simp [readRaw, h2, hmem]
 
 example : (34 : Nat) ∉ [0xE000, 97, 39] := by decide
 
 /-- … refutation: the string `a"b'` is written `"a\"b'"` and rejected by the reader -/
-theorem asis_reader_witness :
-    showQ SQuirks.asis [97, 34, 98, 39] = [.ch 97, .bsq, .ch 98, .ch 39] ∧
-    readRaw SQuirks.asis (showQ SQuirks.asis [97, 34, 98, 39]) = none ∧
+theorem r1_reader_witness :
+    showQ SQuirks.r1 [97, 34, 98, 39] = [.ch 97, .bsq, .ch 98, .ch 39] ∧
+    readRaw SQuirks.r1 (showQ SQuirks.r1 [97, 34, 98, 39]) = none ∧
     readRaw SQuirks.spec (showQ SQuirks.spec [97, 34, 98, 39]) ≠ none := by decide
 
 end C09
